@@ -452,6 +452,72 @@ fn faults(ir: &Ir, t: &Ty, doc: &Tree, rng: &mut Rng, depth: usize) -> Vec<(Stri
     out
 }
 
+/// C05 on the generated types of verif.json, in all three configurations: a valid document with one undeclared field
+/// added to an object at any depth (below optionals, lists, sets, map values, aliases, union members) is read by the
+/// client exactly as the document without it, and rejected by the server with an error naming the field.  The
+/// operation is the wire model's `canon` (its `server` flag is this property).
+pub fn c05_generated(cs: &mut Cases, rng: &mut Rng, tier: Tier) {
+    let ir = load_ir();
+    let defs = defs_sexp(&ir);
+    let reg: HashMap<&'static str, verifgen::Entry> = verifgen::registry().into_iter().map(|e| (e.name, e)).collect();
+    let per_type = if tier == Tier::Quick { 2 } else { 10 };
+    for (i, name) in ir.names.iter().enumerate() {
+        let entry = match reg.get(name.as_str()) {
+            Some(e) => e,
+            None => continue,
+        };
+        for (cfg, exh, emp) in [("plain", false, false), ("exhaustive", true, false), ("empties", false, true)] {
+            for _ in 0..per_type {
+                let t = Ty::Ref(i);
+                let doc = {
+                    let mut g = Gen { ir: &ir, rng: &mut *rng, exhaustive: exh };
+                    g.value(&t, 3)
+                };
+                let base_bytes = serde_json::to_vec(&doc).unwrap();
+                for (label, d) in faults(&ir, &t, &doc, rng, 0) {
+                    if label != "unknown-field" {
+                        continue;
+                    }
+                    for server in [false, true] {
+                        let bytes = serde_json::to_vec(&d).unwrap();
+                        let f = entry.de_ser;
+                        let (c2, b2, c3, b3) = (cfg.to_string(), bytes.clone(), cfg.to_string(), base_bytes.clone());
+                        let r = guarded(move || (f(&c2, server, &b2), f(&c3, server, &b3)));
+                        let show = |x: &Result<String, String>| match x {
+                            Ok(s) => format!("ok {}", sort_tree(&serde_json::from_str::<Tree>(s).unwrap_or(Tree::Null))),
+                            Err(_) => "err".to_string(),
+                        };
+                        let op = format!("canon {} {}{}{} (ref,{}) {}", defs, exh as u8, emp as u8, server as u8, i, d.txt(None));
+                        let class = format!("generated:{}:{}", cfg, if server { "server" } else { "client" });
+                        let note = format!("{} {} {}: {}", name, cfg, if server { "server" } else { "client" }, String::from_utf8_lossy(&bytes));
+                        match r {
+                            Err(p) => {
+                                cs.push(&class, op, format!("panic {}", p), true, note);
+                                cs.fail_last("generated:panic", format!("{} panicked on {}: {}", name, String::from_utf8_lossy(&bytes), p));
+                            }
+                            Ok((with, without)) => {
+                                cs.push(&class, op, show(&with), true, note);
+                                if without.is_err() {
+                                    continue; // the base document is not accepted: nothing to compare (C02's business)
+                                }
+                                if server {
+                                    match &with {
+                                        Ok(_) => cs.fail_last("generated:server-accepts-unknown-field", format!("{} ({}, server) accepts an undeclared field: {}", name, cfg, String::from_utf8_lossy(&bytes))),
+                                        Err(e) if !e.contains("notDeclaredAnywhere") => cs.fail_last("generated:server-error-does-not-name-field", format!("{} ({}, server) rejects {} without naming the field: {}", name, cfg, String::from_utf8_lossy(&bytes), e)),
+                                        _ => {}
+                                    }
+                                } else if show(&with) != show(&without) {
+                                    cs.fail_last("generated:client-does-not-ignore-unknown-field", format!("{} ({}, client) reads {} as {:?} but the same document without `notDeclaredAnywhere` as {:?}", name, cfg, String::from_utf8_lossy(&bytes), with, without));
+                                }
+                            }
+                        }
+                    }
+                }
+            }
+        }
+    }
+}
+
 pub fn cases(seed: u64, tier: Tier) -> Cases {
     let mut cs = Cases::new("C02");
     let mut rng = Rng::new(seed ^ 0xC02);
